@@ -66,7 +66,7 @@ def run_config(cfg, res):
   world = cachesim.World(ns, trace_files=('cache.py', 'events.py', 'writer.py'))
   r = gen.rng(cfg['seed'], 'C04', cfg['name'])
   label = cfg['strategy']
-  for w in range(2 if cfg['tier'] == 'quick' else 8):
+  for w in range(2 if cfg['tier'] == 'quick' else 4):
     ops = gen_workload(r, cfg['lag'])
     seen = set()
 
@@ -109,7 +109,7 @@ def run_config(cfg, res):
     h0 = one(S.DeviationPolicy({}), 'baseline')
     one(S.DeviationPolicy({0: 1}), 'mirror')
     n0 = h0.decisions
-    budget2 = 400 if cfg['tier'] == 'quick' else 6000
+    budget2 = 400 if cfg['tier'] == 'quick' else 2500
     for d in range(0, n0 + 3):
       hi = one(S.DeviationPolicy({d: 1}), 'preempt@%d' % d)
       # second preemption: a seeded sample of positions after the first (budgeted per workload)
@@ -118,7 +118,7 @@ def run_config(cfg, res):
       if m > 0:
         for j in sorted(set(r.randrange(d + 1, hi.decisions + 2) for _ in range(min(take, m)))):
           one(S.DeviationPolicy({d: 1, j: 1}), 'preempt@%d,%d' % (d, j))
-    for _ in range(30 if cfg['tier'] == 'quick' else 150):
+    for _ in range(30 if cfg['tier'] == 'quick' else 100):
       one(S.RandomPolicy(gen.rng(r.random(), 'rp'), p=r.choice([0.02, 0.1, 0.3]), q=r.choice([0.2, 0.5])), 'random')
     res.sample(dict(cfg=cfg['name'], workload=ops), cap=2)
 
